@@ -715,7 +715,13 @@ def _set_val(inst, pi, ai, v):
     return c
 
 
-def violations(rng, schema, pop, per_class=1):
+# a STRING literal with delimiters of the record syntax inside, given where a value of another scalar type is expected:
+# the failed read must not leave the stream inside the literal (the next records would be taken for string content)
+STRING_DELIMS = ["'a)b;c'", "'x,y'", "'p)'", "'((q'", "'it''s;)'", "');#1=X('"]
+STRING_DELIM_KINDS = ("INTEGER", "DEF_INT", "REAL", "DEF_REAL", "NUMBER", "BOOLEAN", "LOGICAL", "ENUM", "XENUM", "BINARY", "ENTITY")
+
+
+def violations(rng, schema, pop, per_class=1, string_delims=False):
     """-> [Violation]; `insts` is the file content: Inst objects or raw text for the mutated instance"""
     out = []
     ids = [i.id for i in pop]
@@ -750,6 +756,11 @@ def violations(rng, schema, pop, per_class=1):
         lit = rng.choice(WRONG_KIND[a.kind]).replace("#REF", someref)
         out.append(Violation("wrong_kind", pop[ii].id, replaced(ii, _set_val(pop[ii], pi, ai, ("tok", lit))),
                              where(pop[ii], pi, ai, a) + ":" + re.sub(r"[^A-Za-z0-9#'.()\"]", "", lit)[:6]))
+    if string_delims:
+        for k, (ii, pi, ai, a) in enumerate(positions(lambda a, v, i: a.kind in STRING_DELIM_KINDS and v[0] != "null")):
+            lit = STRING_DELIMS[rng.randrange(len(STRING_DELIMS))]
+            out.append(Violation("wrong_kind_string_delims", pop[ii].id, replaced(ii, _set_val(pop[ii], pi, ai, ("tok", lit))),
+                                 where(pop[ii], pi, ai, a) + ":" + re.sub(r"[^A-Za-z0-9#'.();,]", "", lit)[:8]))
     # wrong kind inside an aggregate
     for (ii, pi, ai, a) in positions(lambda a, v, i: a.kind in AGG_ELEM_WRONG and v[0] == "aggr" and len(v[1]) >= 1):
         v = pop[ii].parts[pi][1][ai]
